@@ -28,7 +28,9 @@ VarForms == {"float64", "int64"}
 \* AxisForms: the altitude / time axes of a grid are arrays of any numeric type - floats in metres / seconds or whole numbers
 \* (kilometres, ten-minute units).  A point between two levels lies in the cell below it whatever the type of the axis:
 \* the point's value is compared, it is not converted to the type of the axis.
-AxisForms == {"float", "whole"}
+\* ("reassigned": the axes of an existing grid object assigned anew - the object is a record of its axes, the cells are
+\* those of the axes it has when it is asked)
+AxisForms == {"float", "whole", "reassigned"}
 \* BufferForms: Pieces(seg) is a function of the coordinates handed over - whether they arrive in new arrays or in the arrays
 \* of the previous flight refilled in place (per-flight buffers), on the same grid object or another one
 BufferForms == {"fresh", "refilled"}
